@@ -117,7 +117,7 @@ def _sub_get_unchecked(line):
     """R1: X.get_unchecked(E) / get_unchecked_mut(E) -> indexing."""
     out = line
     while True:
-        m = re.search(r'(\*?)([A-Za-z_][A-Za-z0-9_\.]*)\.get_unchecked(_mut)?\(', out)
+        m = re.search(r'(\*?)([A-Za-z_][A-Za-z0-9_\.]*)(?:\[\.\.\])?\.get_unchecked(_mut)?\(', out)
         if not m:
             return out
         i = m.end()
